@@ -19,6 +19,7 @@ import (
 	"crypto/sha256"
 	"encoding/json"
 	"fmt"
+	"io"
 	"math/big"
 	"os"
 	"os/exec"
@@ -358,3 +359,196 @@ func c17SizeIdx(t *rapid.T, i int) int {
 func c17Sm3(msg []byte) []byte { d := sm3ref.Sum(msg); return d[:] }
 
 var _ = bytes.Equal
+
+// ---- a source that is parked inside Read --------------------------------------------------------------------------------------
+//
+// A caller's randomness source may block (a hardware device, a pipe, an HSM session). That is the caller's business and concerns
+// the call it was passed to; every OTHER call — other goroutines, other keys, other sources — must go on returning what it returns
+// when run alone. Goroutine A's source parks inside Read at a drawn point (first read, after some rejected candidates, in the
+// middle of a unit) until it is released; while it is parked, goroutine B makes a call of its own. The evidence for a violation is
+// two-sided, so that a slow machine cannot produce it: B has NOT returned 15 s after it started (its normal duration is about a
+// millisecond) AND returns within 2 s once A's source is released. Results of both calls are compared with the references.
+
+type c17ParkReader struct {
+	data    []byte
+	pos     int
+	parkAt  int
+	parked  chan struct{}
+	release chan struct{}
+	once    sync.Once
+	gaveUp  atomic.Bool
+}
+
+func (p *c17ParkReader) Read(b []byte) (int, error) {
+	if p.pos >= p.parkAt {
+		p.once.Do(func() {
+			close(p.parked)
+			select {
+			case <-p.release:
+			case <-time.After(60 * time.Second):
+				p.gaveUp.Store(true)
+			}
+		})
+	}
+	n := len(b)
+	if p.pos < p.parkAt && n > p.parkAt-p.pos {
+		n = p.parkAt - p.pos
+	}
+	if n > len(p.data)-p.pos {
+		n = len(p.data) - p.pos
+	}
+	if n == 0 {
+		return 0, fmt.Errorf("verif: source exhausted")
+	}
+	copy(b, p.data[p.pos:p.pos+n])
+	p.pos += n
+	return n, nil
+}
+
+func TestVerif_C17_ParkedSource(t *testing.T) {
+	rec := stats.Get("C17", "parked-source")
+	rec.Rule("rapid draws two keys, digests and nonce streams, the entry point of goroutine A (SignHashed, Sign, GenerateKey) whose source PARKS inside Read at a drawn point (first read, after 1..3 rejected candidates, inside a 32-byte unit), and the call goroutine B makes meanwhile (SignHashed, Sign, GenerateKey, VerifyHashed, DerivePublic, ZA) with its own key and source. Oracle: B returns while A's source is parked (violation only on two-sided evidence: not returned after 15 s, and returned within 2 s of A's release) and both results equal the references'. Non-trivial: every case; distinct by (entries, park point, keys).")
+	t.Cleanup(stats.FlushAll)
+	rapid.Check(t, func(t *rapid.T) {
+		r := gen.Rand(t, "content")
+		mkKey := func() (*big.Int, []byte, []byte) {
+			d := new(big.Int).SetBytes(gen.RandBytes(r, 40))
+			d.Mod(d, sm2gen.NM2).Add(d, big.NewInt(1))
+			px, py, _ := sm2gen.Pub(d)
+			return d, px, py
+		}
+		dA, pxA, pyA := mkKey()
+		dB, pxB, pyB := mkKey()
+		eA, eB := gen.RandBytes(r, 32), gen.RandBytes(r, 32)
+		rejected := gen.Uniform(t, "rejected-before-park", 0, 3)
+		streamA := bytes.Repeat([]byte{0xff}, 32*rejected)
+		good := gen.RandBytes(r, 64)
+		good[0] &= 0x7f
+		streamA = append(streamA, good...)
+		parkAt := 32*rejected + []int{0, 0, 7, 31}[gen.Uniform(t, "park-offset", 0, 3)]
+		entryA := gen.Pick(t, "A", "SignHashed", "SignHashed", "Sign", "GenerateKey")
+		entryB := gen.Pick(t, "B", "SignHashed", "SignHashed", "Sign", "GenerateKey", "GenerateKey", "VerifyHashed", "DerivePublic", "ZA")
+		streamB := gen.RandBytes(r, 96)
+		streamB[0] &= 0x7f
+		id := gen.RandBytes(r, 16)
+		msg := gen.RandBytes(r, 50)
+		src := &c17ParkReader{data: streamA, parkAt: parkAt, parked: make(chan struct{}), release: make(chan struct{})}
+		call := func(entry string, rd io.Reader, d *big.Int, px, py, e []byte) string {
+			switch entry {
+			case "SignHashed":
+				rr, ss, err := sm2.SignHashed(rd, gen.Pad32(d), e)
+				return fmt.Sprintf("%x|%x|%v", rr, ss, err)
+			case "Sign":
+				rr, ss, err := sm2.Sign(id, px, py, rd, gen.Pad32(d), msg)
+				return fmt.Sprintf("%x|%x|%v", rr, ss, err)
+			case "GenerateKey":
+				p, x, y, err := sm2.GenerateKey(rd)
+				return fmt.Sprintf("%x|%x|%x|%v", p, x, y, err)
+			case "VerifyHashed":
+				ok, err := sm2.VerifyHashed(px, py, e, gen.Pad32(big.NewInt(5)), gen.Pad32(big.NewInt(7)))
+				return fmt.Sprint(ok, err)
+			case "DerivePublic":
+				x, y, err := sm2.DerivePublic(gen.Pad32(d))
+				return fmt.Sprintf("%x|%x|%v", x, y, err)
+			default:
+				za, err := sm2.ZA(id, px, py)
+				return fmt.Sprintf("%x|%v", za, err)
+			}
+		}
+		want := func(entry string, stream []byte, d *big.Int, px, py, e []byte) string {
+			switch entry {
+			case "SignHashed", "Sign":
+				ee := e
+				if entry == "Sign" {
+					za, _ := sm2ref.ZA(id, px, py)
+					ee = sm2ref.E(za, msg)
+				}
+				rr, ss, _, _, err := sm2ref.Sign(d, ee, stream)
+				if err != nil {
+					return "?"
+				}
+				return fmt.Sprintf("%x|%x|<nil>", gen.Pad32(rr), gen.Pad32(ss))
+			case "GenerateKey":
+				for i := 0; i+32 <= len(stream); i += 32 {
+					if v := new(big.Int).SetBytes(stream[i : i+32]); sm2ref.ValidPrivate(v) {
+						x, y, _ := sm2gen.Pub(v)
+						return fmt.Sprintf("%x|%x|%x|<nil>", stream[i:i+32], x, y)
+					}
+				}
+				return "?"
+			case "VerifyHashed":
+				return fmt.Sprintf("%v <nil>", sm2ref.Verify(px, py, e, gen.Pad32(big.NewInt(5)), gen.Pad32(big.NewInt(7))))
+			case "DerivePublic":
+				return fmt.Sprintf("%x|%x|<nil>", px, py)
+			default:
+				za, _ := sm2ref.ZA(id, px, py)
+				return fmt.Sprintf("%x|<nil>", za)
+			}
+		}
+		aDone := make(chan string, 1)
+		go func() {
+			defer func() {
+				if p := recover(); p != nil {
+					aDone <- fmt.Sprintf("PANIC: %v", p)
+				}
+			}()
+			aDone <- call(entryA, src, dA, pxA, pyA, eA)
+		}()
+		rec.Case(stats.HashS(entryA, entryB, fmt.Sprint(parkAt))^stats.Hash(gen.Pad32(dA), gen.Pad32(dB)), true, "A:"+entryA, "B:"+entryB, fmt.Sprintf("rejected-before-park:%d", rejected))
+		select {
+		case <-src.parked:
+		case got := <-aDone:
+			rec.Skipped("A returned without reading up to the park point: " + got[:min(len(got), 40)])
+			return
+		case <-time.After(30 * time.Second):
+			close(src.release)
+			rec.Skipped("A did not reach its source within 30 s")
+			return
+		}
+		bDone := make(chan string, 1)
+		start := time.Now()
+		go func() {
+			defer func() {
+				if p := recover(); p != nil {
+					bDone <- fmt.Sprintf("PANIC: %v", p)
+				}
+			}()
+			bDone <- call(entryB, bytes.NewReader(streamB), dB, pxB, pyB, eB)
+		}()
+		var gotB string
+		blocked := false
+		select {
+		case gotB = <-bDone:
+		case <-time.After(15 * time.Second):
+			blocked = true
+		}
+		released := time.Now()
+		close(src.release)
+		if blocked {
+			select {
+			case gotB = <-bDone:
+				if after := time.Since(released); after < 2*time.Second {
+					vt.Fail(t, rec, "C17:parked-source:other-call-blocked", "%s of goroutine B (own key, own source) did not return while the source of goroutine A's %s was parked inside Read (waited %v), and returned %v after A's source was released: calls are coupled through the caller's source", entryB, entryA, released.Sub(start).Round(time.Second), after.Round(time.Millisecond))
+				} else {
+					rec.Skipped("B was slow both before and after the release: machine too busy to judge")
+				}
+			case <-time.After(60 * time.Second):
+				rec.Skipped("B did not return at all within 75 s: machine too busy to judge")
+				return
+			}
+		}
+		var gotA string
+		select {
+		case gotA = <-aDone:
+		case <-time.After(60 * time.Second):
+			rec.Skipped("A did not return within 60 s of its release")
+			return
+		}
+		if w := want(entryB, streamB, dB, pxB, pyB, eB); w != "?" && gotB != w {
+			vt.Fail(t, rec, "C17:parked-source:result-differs", "%s of goroutine B, run while A's source was parked, returned\n %s\nwant\n %s", entryB, gotB, w)
+		}
+		if w := want(entryA, streamA, dA, pxA, pyA, eA); w != "?" && gotA != w && !src.gaveUp.Load() {
+			vt.Fail(t, rec, "C17:parked-source:result-differs", "%s of goroutine A (source parked at byte %d, then released) returned\n %s\nwant\n %s", entryA, parkAt, gotA, w)
+		}
+	})
+}
